@@ -34,8 +34,15 @@ def seeded():
         rows.append(f'| {sid} | {m["property"]} | {m.get("what","")} — needs: {m.get("needs_to_manifest","")} | {m.get("check_result","")} |'.replace('\n', ' '))
     return '\n'.join(rows)
 
+def benign():
+    rows = ['| refactor | property | kind | what | first run | now |', '|---|---|---|---|---|---|']
+    for d in sorted(glob.glob(f'{R}/benign/*/meta.json')):
+        m = json.load(open(d)); bid = os.path.basename(os.path.dirname(d))
+        rows.append(f'| {bid} | {m["property"]} | {m.get("kind","")} | {m.get("what","")} | {m.get("first_run","")} | {m.get("now","")} |'.replace('\n', ' '))
+    return '\n'.join(rows)
+
 text = open(f'{R}/DESIGN.md').read()
-for key, fn in (('status', status), ('findings', findings), ('seeded', seeded)):
+for key, fn in (('status', status), ('findings', findings), ('seeded', seeded), ('benign', benign)):
     pat = re.compile(rf'(<!-- BEGIN GENERATED:{key} -->\n).*?(<!-- END GENERATED:{key} -->)', re.S)
     assert pat.search(text), key
     text = pat.sub(lambda m: m.group(1) + fn() + '\n' + m.group(2), text)
